@@ -1,5 +1,5 @@
 """C04 — every decoding path yields the specified output for every valid frame (catalogue x paths x histories x build variants, differential against R)."""
-RULE = ('every record of the spec-derived frame catalogue (+12 compressor-made streams) x 7 decoder histories on the same DCtx (cold; another frame with other tables first (2 choices); '
+RULE = ('every record of the spec-derived frame catalogue (incl. the bit-container family: blocks of sequences carrying 9 .. 39 extra bits each with maximal-accuracy tables whose used codes have probability "less than one") (+12 compressor-made streams) x 7 decoder histories on the same DCtx (cold; another frame with other tables first (2 choices); '
         'proper prefix then reset; failed corrupt frame then reset; same frame before; streamed before) x 6 decode paths (one-shot exact dst, one-shot roomy dst, streaming with stable output, '
         'streaming 3-byte in / 5-byte out, buffer-less, in-place with decompressionMargin; dictionaries through loadDictionary / refDDict / refPrefix) must equal the output of the vendored '
         'reference decoder R; repeated for decoder builds {default, HUF_FORCE_DECOMPRESS_X1, _X2, FORCE_DECOMPRESS_SEQUENCES_SHORT, _LONG, DYNAMIC_BMI2=0, ZSTD_DISABLE_ASM (gcc -O2), gcc -O2}; '
